@@ -8,6 +8,9 @@
 // TLC against spec/EventsAbs.tla (spec/EventsTrace.tla).  The module system is a process-wide
 // singleton, so one process executes exactly one script.
 //
+// One yield point of the library is used (build tag verif): mgmt.treereset inside buildEnabledTree, where the
+// goroutine of Start/ManageModules waits for the script step "reltree" when module management is on.
+//
 // usage: events <script.ndjson> <trace.ndjson> [skip]
 package main
 
@@ -68,6 +71,7 @@ var (
 
 	gmu      sync.Mutex
 	startCh  = map[string]chan struct{}{} // parked start routines
+	treeCh   chan struct{}                // Start/ManageModules parked inside buildEnabledTree (yield point mgmt.treereset)
 	autoPass bool                         // finalisation: gates let everything pass
 
 	pmu      sync.Mutex
@@ -131,6 +135,38 @@ func releaseStart(name string, patience time.Duration) bool {
 		}
 		gmu.Unlock()
 		if ok {
+			close(ch)
+			return true
+		}
+		if inFlight.Load() == 0 || time.Now().After(deadline) {
+			return false
+		}
+		time.Sleep(200 * time.Microsecond)
+	}
+}
+
+// treePoint is the yield point inside buildEnabledTree: under module management the goroutine that rebuilds
+// the dependency flags waits here until the script releases it (step "reltree").
+func treePoint() {
+	gmu.Lock()
+	if autoPass || !sc.Mgmt {
+		gmu.Unlock()
+		return
+	}
+	ch := make(chan struct{})
+	treeCh = ch
+	gmu.Unlock()
+	<-ch
+}
+
+func releaseTree(patience time.Duration) bool {
+	deadline := time.Now().Add(patience)
+	for {
+		gmu.Lock()
+		ch := treeCh
+		treeCh = nil
+		gmu.Unlock()
+		if ch != nil {
 			close(ch)
 			return true
 		}
@@ -327,7 +363,19 @@ func main() {
 			emit(map[string]any{"e": "sub", "t": tid(t), "m": moduleName, "ev": eventName, "internal": internal, "data": t})
 		})
 	}
-	emit(map[string]any{"e": "init", "mgmt": sc.Mgmt, "mods": sc.Mods, "sub": sc.Sub})
+	modules.VerifHook = func(point string, _ *modules.Module) {
+		if point == "mgmt.treereset" {
+			treePoint()
+		}
+	}
+	deps := make([][]string, len(sc.Mods))
+	for i := range deps {
+		deps[i] = []string{}
+		if i < len(sc.Deps) && sc.Deps[i] != nil {
+			deps[i] = sc.Deps[i]
+		}
+	}
+	emit(map[string]any{"e": "init", "mgmt": sc.Mgmt, "mods": sc.Mods, "deps": deps, "sub": sc.Sub})
 
 	for _, st := range sc.Steps {
 		// a step that could kill the process is announced first
@@ -385,6 +433,8 @@ func main() {
 			}
 		case "relstart":
 			releaseStart(st.M, 300*time.Millisecond)
+		case "reltree":
+			releaseTree(300 * time.Millisecond)
 		case "enable", "disable":
 			m := mods[st.M]
 			if m == nil || !sc.Mgmt || shut || !waitCall(time.Second) {
@@ -406,6 +456,10 @@ func main() {
 	// finalisation: open every gate, let the running pass return, wait for quiet, final accounting
 	gmu.Lock()
 	autoPass = true
+	if treeCh != nil {
+		close(treeCh)
+		treeCh = nil
+	}
 	for name, ch := range startCh {
 		close(ch)
 		delete(startCh, name)
